@@ -365,10 +365,6 @@ def _tg_body(case, mon, tmp, holder):
         mon.trivial()
         mon.lib("write_textgrid", D.write_textgrid, tr, os.path.join(tmp, "e.TextGrid"), documented=(ValueError,))
         mon.fail("empty-transcript-accepted", note="documented: transcript must be non-empty")
-    if any(a[2] > b[1] or (a[1], a[2]) > (b[1], b[2]) for a, b in zip(tr, tr[1:])) or any(s > e for _, s, e in tr):
-        # not a tier (entries overlap or are out of time order): the reader's ordering is then unspecified
-        mon.ood("tg_not_a_tier")
-        return
     kw = {}
     p = config.DEFT_FLOAT_PRINT_PRECISION
     if not case["default_precision"]:
@@ -378,6 +374,12 @@ def _tg_body(case, mon, tmp, holder):
             kw[name] = case[name]
     name = case["tier_name"] if case["tier_name"] is not None else config.DEFT_TEXTGRID_TIER_NAME
     P = lambda x: "%.*f" % (p, x)
+    pr = [(float(P(s)), float(P(e))) for _, s, e in tr]
+    if any(a[1] > b[0] or a > b for a, b in zip(pr, pr[1:])) or any(s > e for s, e in pr):
+        # not a tier as written (printed entries overlap or are out of time order): the reader's order is
+        # unspecified then.  Judged on the printed values, which is all a reader can see.
+        mon.ood("tg_not_a_tier")
+        return
     printed_point = all(P(s) == P(e) for _, s, e in tr)
     is_point = case["point_tier"] if case["point_tier"] is not None else printed_point
     mon.cls("tg_precision_%d" % p, "tg_point_tier" if is_point else "tg_interval_tier")
